@@ -449,7 +449,12 @@ class Bin(Factory, Container):
             # Numpy defines histograms as including the upper edge of the last bin only, so drop that
             weights[q == self.high] = 0.0
 
-            h, _ = np.histogram(q, self.num, (self.low, self.high), weights=weights)
+            # same index as bin(): np.histogram places a value by its own linspace edges, which put e.g. 0.3 of
+            # Bin(10, 0, 1) into bin 2 here while fill() puts it into bin 3
+            inrange = (q >= self.low) & (q < self.high)
+            index = np.floor(self.num * (q[inrange] - self.low) / (self.high - self.low)).astype(int)
+            np.minimum(index, self.num - 1, index)
+            h = np.bincount(index, weights=weights[inrange], minlength=self.num)
 
             for hi, value in zip(h, self.values):
                 value.fill(None, float(hi))
